@@ -8,8 +8,6 @@ import (
 	"sort"
 	"strings"
 
-	"golang.org/x/tools/go/cfg"
-
 	"osmcheck/core"
 )
 
@@ -24,9 +22,12 @@ import (
 // element is split into methods. One analysis is run per element message of a primitive group (the method that
 // receives the bytes of a DenseNodes / Way / Relation message), starting from "every iterator is stale".
 
+// c01Exit is one way a function can return: the caller-visible state, the returned values (an error result is a
+// value of kind 'E') and the nil-ness class of the error result ('-' when there is none).
 type c01Exit struct {
-	fields string
-	err    byte // 'Z' nil, 'E' non-nil, '?' unknown, '-' no error result
+	st   c01St
+	rets []c01Val
+	err  byte
 }
 
 type c01Fresh struct {
@@ -44,27 +45,6 @@ type c01Fresh struct {
 	unknown  string
 	upos     token.Pos
 }
-
-// c01Frame is the execution of one function.
-type c01Frame struct {
-	fr     *c01Fresh
-	fi     *FuncInfo
-	f      *c01Fn
-	locals []types.Object // tracked bool / error locals, fixed order
-	lidx   map[types.Object]int
-	exits  map[c01Exit]bool
-}
-
-type c01St struct {
-	fields []byte
-	locals []byte
-}
-
-func (s c01St) clone() c01St {
-	return c01St{fields: append([]byte{}, s.fields...), locals: append([]byte{}, s.locals...)}
-}
-
-func (s c01St) key() string { return string(s.fields) + "|" + string(s.locals) }
 
 func c01R2(r *core.R) {
 	cm := c01ModelOrAnchor(r)
@@ -143,7 +123,7 @@ func c01R2(r *core.R) {
 		for i := range init {
 			init[i] = 'S'
 		}
-		fr.run(rt.fi, string(init))
+		fr.run(rt.fi, c01St{fields: init, cells: map[string]c01Val{}}, nil, 0)
 		if fr.unknown != "" {
 			r.Unknown("fresh@"+rt.msg, fr.upos, "%s", fr.unknown)
 			continue
@@ -179,620 +159,6 @@ func c01R2(r *core.R) {
 	if nroots < want || want == 0 {
 		r.Anchor(fmt.Sprintf("methods receiving the bytes of an element message and using cached iterators (found %d; iterators are filled from %s, of which %d are element messages of a primitive group)", nroots, strings.Join(fm, ", "), want))
 	}
-}
-
-// run executes fi from the given field valuation and returns the ways it can return.
-func (fr *c01Fresh) run(fi *FuncInfo, entry string) []c01Exit {
-	key := fmt.Sprintf("%p|%s", fi.Obj, entry)
-	if ex, ok := fr.memo[key]; ok {
-		return ex
-	}
-	if fr.stack[fi.Obj] {
-		if fr.unknown == "" {
-			fr.unknown, fr.upos = fmt.Sprintf("%s is recursive: the freshness analysis inlines the decoder's methods and does not handle recursion", fi.Name()), fi.Decl.Pos()
-		}
-		return nil
-	}
-	fr.stack[fi.Obj] = true
-	defer delete(fr.stack, fi.Obj)
-	info := fr.info
-	fm := &c01Frame{fr: fr, fi: fi, f: c01FnOf(fr.r.P, fi), lidx: map[types.Object]int{}, exits: map[c01Exit]bool{}}
-	// tracked locals: bool and error variables declared in fi (parameters included)
-	addLocal := func(o types.Object) {
-		if o == nil {
-			return
-		}
-		if _, dup := fm.lidx[o]; dup {
-			return
-		}
-		if v, ok := o.(*types.Var); !ok || v.IsField() {
-			return
-		}
-		if types.Identical(o.Type(), types.Typ[types.Bool]) || isErrorType(o.Type()) {
-			fm.lidx[o] = len(fm.locals)
-			fm.locals = append(fm.locals, o)
-		}
-	}
-	ast.Inspect(fi.Decl, func(n ast.Node) bool {
-		if _, ok := n.(*ast.FuncLit); ok {
-			return false
-		}
-		if id, ok := n.(*ast.Ident); ok {
-			addLocal(info.Defs[id])
-		}
-		return true
-	})
-	init := c01St{fields: []byte(entry), locals: make([]byte, len(fm.locals))}
-	for i, o := range fm.locals {
-		if isErrorType(o.Type()) {
-			init.locals[i] = 'Z'
-			if c01ParamIndex(info, fi, o) >= 0 {
-				init.locals[i] = '?'
-			}
-		} else {
-			init.locals[i] = 'F'
-		}
-	}
-	starts := []c01St{init}
-	// boolean parameters are unknown: explore both values
-	for i, o := range fm.locals {
-		if !isErrorType(o.Type()) && c01ParamIndex(info, fi, o) >= 0 {
-			var nw []c01St
-			for _, s := range starts {
-				t := s.clone()
-				t.locals[i] = 'T'
-				nw = append(nw, s, t)
-			}
-			starts = nw
-		}
-	}
-	g := fm.f.g
-	seen := map[*cfg.Block]map[string]bool{}
-	type item struct {
-		b *cfg.Block
-		s c01St
-	}
-	var work []item
-	// a local is dead outside its lexical scope: its value is normalised there so that dead found-flags of an
-	// inner block do not multiply the valuations of the enclosing loop
-	type span struct{ pos, end token.Pos }
-	scopes := make([]span, len(fm.locals))
-	for i, o := range fm.locals {
-		if sc := o.Parent(); sc != nil {
-			scopes[i] = span{sc.Pos(), sc.End()}
-		}
-	}
-	push := func(b *cfg.Block, s c01St) {
-		if seen[b] == nil {
-			seen[b] = map[string]bool{}
-		}
-		if len(b.Nodes) > 0 {
-			p := b.Nodes[0].Pos()
-			var ns *c01St
-			for i := range fm.locals {
-				if scopes[i].end.IsValid() && (p < scopes[i].pos || p >= scopes[i].end) && s.locals[i] != init.locals[i] {
-					if ns == nil {
-						c := s.clone()
-						ns = &c
-					}
-					ns.locals[i] = init.locals[i]
-				}
-			}
-			if ns != nil {
-				s = *ns
-			}
-		}
-		k := s.key()
-		if seen[b][k] {
-			return
-		}
-		seen[b][k] = true
-		work = append(work, item{b, s.clone()})
-	}
-	for _, s := range starts {
-		push(g.Blocks[0], s)
-	}
-	for len(work) > 0 && fr.unknown == "" {
-		it := work[len(work)-1]
-		work = work[:len(work)-1]
-		b := it.b
-		fr.nstate++
-		cur := []c01St{it.s}
-		cond := fm.f.condOf(b)
-		returned := false
-		for i, n := range b.Nodes {
-			if cond != nil && i == len(b.Nodes)-1 {
-				for _, s := range cur {
-					fm.uses(n, s)
-				}
-				if c01ContainsCall(n, func(call *ast.CallExpr) bool { return fm.decoderMethod(call) != nil }) && fr.unknown == "" {
-					fr.unknown, fr.upos = fmt.Sprintf("a branch condition of %s calls a method of the per-worker decoder; effects of calls inside conditions are not modelled", fi.Name()), n.Pos()
-				}
-				continue
-			}
-			var next []c01St
-			for _, s := range cur {
-				next = append(next, fm.transfer(n, s)...)
-			}
-			cur = next
-			if _, isRet := n.(*ast.ReturnStmt); isRet {
-				returned = true
-			}
-		}
-		if returned {
-			continue
-		}
-		if len(b.Succs) == 0 {
-			// fell off the end of a function without results (or a panic)
-			if c01IsNormalExit(fm.f, b) {
-				for _, s := range cur {
-					fm.exits[c01Exit{string(s.fields), '-'}] = true
-				}
-			}
-			continue
-		}
-		for _, s := range cur {
-			for si, nb := range b.Succs {
-				ns := s
-				if cond != nil && len(b.Succs) == 2 {
-					v := fm.eval(cond, s)
-					if (si == 0 && v == c01F) || (si == 1 && v == c01T) {
-						continue
-					}
-					ns = fm.refine(cond, s, si == 0)
-				}
-				push(nb, ns)
-			}
-		}
-	}
-	var out []c01Exit
-	for e := range fm.exits {
-		out = append(out, e)
-	}
-	sort.Slice(out, func(i, j int) bool {
-		if out[i].fields != out[j].fields {
-			return out[i].fields < out[j].fields
-		}
-		return out[i].err < out[j].err
-	})
-	fr.memo[key] = out
-	return out
-}
-
-// trackedField: selector e denotes a tracked iterator field of the per-worker decoder.
-func (fm *c01Frame) trackedField(e ast.Expr) (*types.Var, bool) {
-	sel, ok := ast.Unparen(e).(*ast.SelectorExpr)
-	if !ok {
-		return nil, false
-	}
-	f := fieldOf(fm.fr.info, sel)
-	if f == nil {
-		return nil, false
-	}
-	if _, tracked := fm.fr.fieldIdx[f]; !tracked {
-		return nil, false
-	}
-	return f, true
-}
-
-// eval evaluates a condition under a valuation.
-func (fm *c01Frame) eval(e ast.Expr, st c01St) c01Tri {
-	info := fm.fr.info
-	return c01Eval(info, e, func(a ast.Expr) c01Tri {
-		a = ast.Unparen(a)
-		if id, ok := a.(*ast.Ident); ok {
-			if i, ok := fm.lidx[objOf(info, id)]; ok && !isErrorType(fm.locals[i].Type()) {
-				return c01Bool(st.locals[i] == 'T')
-			}
-		}
-		if x, neq, ok := c01NilCmp(a); ok {
-			v := c01U
-			if f, ok := fm.trackedField(x); ok {
-				switch st.fields[fm.fr.fieldIdx[f]] {
-				case 'A':
-					v = c01T
-				case 'N':
-					v = c01F
-				}
-			} else if i, ok := fm.lidx[objOf(info, x)]; ok && isErrorType(fm.locals[i].Type()) {
-				switch st.locals[i] {
-				case 'E':
-					v = c01T
-				case 'Z':
-					v = c01F
-				}
-			} else {
-				return c01U
-			}
-			if !neq {
-				v = c01Not(v)
-			}
-			return v
-		}
-		return c01U
-	})
-}
-
-// refine sharpens an unknown error local when the condition is a single nil comparison of it.
-func (fm *c01Frame) refine(cond ast.Expr, st c01St, taken bool) c01St {
-	info := fm.fr.info
-	e := ast.Unparen(cond)
-	for {
-		ue, ok := e.(*ast.UnaryExpr)
-		if !ok || ue.Op != token.NOT {
-			break
-		}
-		e, taken = ast.Unparen(ue.X), !taken
-	}
-	x, neq, ok := c01NilCmp(e)
-	if !ok {
-		return st
-	}
-	i, ok := fm.lidx[objOf(info, x)]
-	if !ok || !isErrorType(fm.locals[i].Type()) || st.locals[i] != '?' {
-		return st
-	}
-	ns := st.clone()
-	if neq == taken {
-		ns.locals[i] = 'E'
-	} else {
-		ns.locals[i] = 'Z'
-	}
-	return ns
-}
-
-func (fm *c01Frame) flagDesc(st c01St) string {
-	var fs []string
-	for i, o := range fm.locals {
-		if !isErrorType(o.Type()) && st.locals[i] == 'F' {
-			fs = append(fs, o.Name()+"=false")
-		}
-	}
-	sort.Strings(fs)
-	if len(fs) == 0 {
-		return "-"
-	}
-	return strings.Join(fs, ", ")
-}
-
-// uses records uses of iterator fields inside node n under valuation st (calls into the decoder's methods excluded:
-// those are executed by transfer).
-func (fm *c01Frame) uses(n ast.Node, st c01St) {
-	fr := fm.fr
-	info := fr.info
-	report := func(f *types.Var, pos token.Pos, how string) {
-		if fr.usePos[f] == nil {
-			fr.usePos[f] = map[token.Pos]bool{}
-		}
-		fr.usePos[f][pos] = true
-		v := st.fields[fr.fieldIdx[f]]
-		if v == 'A' {
-			return
-		}
-		if _, dup := fr.viol[f]; dup {
-			return
-		}
-		what := "still holds the iterator of an earlier block or element"
-		if v == 'N' {
-			what = "is nil"
-		}
-		fr.viol[f] = fmt.Sprintf("dec.%s %s %s (in %s) on a path where it %s (valuation in %s: %s): a block or element that lacks this optional column is decoded with the values of an earlier one (or crashes) instead of the format default", f.Name(), how, fr.r.P.Rel(pos), fm.fi.Name(), what, fm.fi.Name(), fm.flagDesc(st))
-		fr.vpos[f] = pos
-	}
-	par := fm.f.par
-	ast.Inspect(n, func(x ast.Node) bool {
-		switch e := x.(type) {
-		case *ast.FuncLit:
-			return false
-		case *ast.SelectorExpr:
-			f, ok := fm.trackedField(e)
-			if !ok {
-				return true
-			}
-			switch p := par[e].(type) {
-			case *ast.BinaryExpr:
-				if _, _, isNil := c01NilCmp(p); isNil {
-					return true // nil comparison
-				}
-			case *ast.AssignStmt:
-				for _, l := range p.Lhs {
-					if l == e {
-						return true // being assigned
-					}
-				}
-			case *ast.CallExpr:
-				// argument of Message.Iterator(dec.F): buffer reuse, not a use
-				if isMethod(callee(info, p), protoscanMsg, "Iterator") {
-					return true
-				}
-				for _, a := range p.Args {
-					if a == e {
-						report(f, e.Pos(), "is passed to "+src(fr.r.P.Fset, p.Fun)+" at")
-						return true
-					}
-				}
-			case *ast.SelectorExpr:
-				if p.X == e {
-					report(f, e.Pos(), "is read ("+p.Sel.Name+") at")
-					return true
-				}
-			}
-			report(f, e.Pos(), "is used at")
-		}
-		return true
-	})
-}
-
-// isDecoderMethod: fn is a method of the per-worker decoder declared in the package.
-func (fm *c01Frame) decoderMethod(call *ast.CallExpr) *FuncInfo {
-	m := fm.fr.cm.m
-	tf := c01Callee(m.pk, call)
-	if tf == nil {
-		return nil
-	}
-	sig := tf.Obj.Type().(*types.Signature)
-	if sig.Recv() == nil || namedPath(sig.Recv().Type()) != namedPath(m.ddT) {
-		return nil
-	}
-	return tf
-}
-
-// transfer applies one CFG node to a valuation (possibly forking).
-func (fm *c01Frame) transfer(n ast.Node, st c01St) []c01St {
-	fr := fm.fr
-	info := fr.info
-	fm.uses(n, st)
-	out := []c01St{st.clone()}
-	// calls of the decoder's own methods, in source order
-	var calls []*ast.CallExpr
-	ast.Inspect(n, func(x ast.Node) bool {
-		if _, ok := x.(*ast.FuncLit); ok {
-			return false
-		}
-		if call, ok := x.(*ast.CallExpr); ok && fm.decoderMethod(call) != nil {
-			calls = append(calls, call)
-		}
-		return true
-	})
-	callErr := map[*ast.CallExpr][]byte{} // per out-state index: error class of the call
-	for _, call := range calls {
-		tf := fm.decoderMethod(call)
-		var nw []c01St
-		var errs []byte
-		prev := callErr
-		callErr = map[*ast.CallExpr][]byte{}
-		for si, s := range out {
-			for _, ex := range fr.run(tf, string(s.fields)) {
-				t := s.clone()
-				t.fields = []byte(ex.fields)
-				nw = append(nw, t)
-				errs = append(errs, ex.err)
-				for c, v := range prev {
-					callErr[c] = append(callErr[c], v[si])
-				}
-			}
-		}
-		callErr[call] = errs
-		out = nw
-	}
-	if len(out) == 0 {
-		return nil
-	}
-	set := func(i int, v byte) {
-		for _, s := range out {
-			s.locals[i] = v
-		}
-	}
-	fork := func(i int, a, b byte) {
-		var nw []c01St
-		for _, s := range out {
-			t := s.clone()
-			s.locals[i] = a
-			t.locals[i] = b
-			nw = append(nw, s, t)
-		}
-		for c, v := range callErr {
-			var dv []byte
-			for _, x := range v {
-				dv = append(dv, x, x)
-			}
-			callErr[c] = dv
-		}
-		out = nw
-	}
-	// errClass of an expression per out state
-	errClass := func(e ast.Expr, facts []guardFact) []byte {
-		res := make([]byte, len(out))
-		e = ast.Unparen(e)
-		if call, ok := e.(*ast.CallExpr); ok {
-			if v, ok := callErr[call]; ok && len(v) == len(out) {
-				return v
-			}
-		}
-		for si, s := range out {
-			switch {
-			case isNilIdent(e):
-				res[si] = 'Z'
-			case c01IsErrNonNilExpr(info, e, facts):
-				res[si] = 'E'
-			default:
-				res[si] = '?'
-				if i, ok := fm.lidx[objOf(info, e)]; ok && isErrorType(fm.locals[i].Type()) {
-					res[si] = s.locals[i]
-				}
-			}
-		}
-		return res
-	}
-	assignLocal := func(lhs ast.Expr, rhs ast.Expr, resIdx int) {
-		o := objOf(info, lhs)
-		i, ok := fm.lidx[o]
-		if !ok {
-			return
-		}
-		if isErrorType(o.Type()) {
-			switch {
-			case rhs == nil:
-				set(i, 'Z')
-			default:
-				if call, isCall := ast.Unparen(rhs).(*ast.CallExpr); isCall && resIdx >= 0 {
-					// error result of a call: last result
-					if v, ok := callErr[call]; ok && len(v) == len(out) {
-						for si, s := range out {
-							s.locals[i] = v[si]
-							if v[si] == '-' {
-								s.locals[i] = '?'
-							}
-						}
-						return
-					}
-					set(i, '?')
-					return
-				}
-				cls := errClass(rhs, nil)
-				for si, s := range out {
-					s.locals[i] = cls[si]
-				}
-			}
-			return
-		}
-		// bool
-		if rhs != nil && resIdx < 0 {
-			switch fm.evalConst(rhs) {
-			case c01T:
-				set(i, 'T')
-				return
-			case c01F:
-				set(i, 'F')
-				return
-			}
-			// a boolean expression over tracked atoms
-			vals := make([]c01Tri, len(out))
-			allKnown := true
-			for si, s := range out {
-				vals[si] = fm.eval(rhs, s)
-				if vals[si] == c01U {
-					allKnown = false
-				}
-			}
-			if allKnown {
-				for si, s := range out {
-					s.locals[i] = 'F'
-					if vals[si] == c01T {
-						s.locals[i] = 'T'
-					}
-				}
-				return
-			}
-		} else if rhs == nil {
-			set(i, 'F')
-			return
-		}
-		fork(i, 'T', 'F')
-	}
-	switch s := n.(type) {
-	case *ast.AssignStmt:
-		for li, l := range s.Lhs {
-			var rhs ast.Expr
-			resIdx := -1
-			if len(s.Rhs) == len(s.Lhs) {
-				rhs = s.Rhs[li]
-			} else if len(s.Rhs) == 1 {
-				rhs, resIdx = s.Rhs[0], li
-			}
-			if f, ok := fm.trackedField(l); ok {
-				k := fr.fieldIdx[f]
-				v := byte('S')
-				switch {
-				case rhs == nil:
-				case resIdx < 0 && isNilIdent(rhs):
-					v = 'N'
-				default:
-					if call, ok := ast.Unparen(rhs).(*ast.CallExpr); ok && isMethod(callee(info, call), protoscanMsg, "Iterator") && (resIdx == 0 || resIdx < 0) {
-						v = 'A'
-					}
-				}
-				for _, st := range out {
-					st.fields[k] = v
-				}
-				continue
-			}
-			if s.Tok == token.ASSIGN || s.Tok == token.DEFINE {
-				assignLocal(l, rhs, resIdx)
-			} else if i, ok := fm.lidx[objOf(info, l)]; ok {
-				if isErrorType(fm.locals[i].Type()) {
-					set(i, '?')
-				} else {
-					fork(i, 'T', 'F')
-				}
-			}
-		}
-	case *ast.DeclStmt:
-		if gd, ok := s.Decl.(*ast.GenDecl); ok {
-			for _, sp := range gd.Specs {
-				if vs, ok := sp.(*ast.ValueSpec); ok {
-					fm.valueSpec(vs, assignLocal)
-				}
-			}
-		}
-	case *ast.ValueSpec:
-		fm.valueSpec(s, assignLocal)
-	case *ast.ReturnStmt:
-		sig := fm.fi.Obj.Type().(*types.Signature)
-		hasErr := sig.Results().Len() > 0 && isErrorType(sig.Results().At(sig.Results().Len()-1).Type())
-		var cls []byte
-		switch {
-		case !hasErr:
-			cls = make([]byte, len(out))
-			for i := range cls {
-				cls[i] = '-'
-			}
-		case len(s.Results) == 0:
-			// named results
-			cls = make([]byte, len(out))
-			for i := range cls {
-				cls[i] = '?'
-			}
-		default:
-			last := s.Results[len(s.Results)-1]
-			cls = errClass(last, fm.f.factsAtPos(s.Pos()))
-			for i := range cls {
-				if cls[i] == '-' {
-					cls[i] = '?'
-				}
-			}
-		}
-		for si, st := range out {
-			fm.exits[c01Exit{string(st.fields), cls[si]}] = true
-		}
-	}
-	return out
-}
-
-func (fm *c01Frame) valueSpec(vs *ast.ValueSpec, assign func(lhs ast.Expr, rhs ast.Expr, resIdx int)) {
-	for i, nm := range vs.Names {
-		switch {
-		case len(vs.Values) == len(vs.Names):
-			assign(nm, vs.Values[i], -1)
-		case len(vs.Values) == 1:
-			assign(nm, vs.Values[0], i)
-		default:
-			assign(nm, nil, -1)
-		}
-	}
-}
-
-// evalConst: the constant truth value of e, or unknown.
-func (fm *c01Frame) evalConst(e ast.Expr) c01Tri {
-	if tv, ok := fm.fr.info.Types[e]; ok && tv.Value != nil {
-		switch tv.Value.String() {
-		case "true":
-			return c01T
-		case "false":
-			return c01F
-		}
-	}
-	return c01U
 }
 
 func isNilIdent(e ast.Expr) bool {
